@@ -488,10 +488,7 @@ func (r *runner) runBlock(steps []Step) {
 		}
 		return a.relay == "" && b.relay != ""
 	}
-	perms := permutations(len(reqs))
-	if len(reqs) > 4 {
-		perms = perms[:24]
-	}
+	perms := permutations(len(reqs)) // at most 5 requests (120 orders); larger blocks take the liveness path
 	for _, perm := range perms {
 		mc := r.m.Clone()
 		cd := &cand{m: mc, order: perm, outs: make([]*Outcome, len(reqs))}
